@@ -356,4 +356,325 @@ theorem firstArgNames_sub {cfg : Cfg} {st : St} {a : Name} (h : a ∈ firstArgNa
     obtain ⟨q, hq, rfl⟩ := List.mem_map.mp h
     exact List.mem_map.mpr ⟨q, (List.mem_filter.mp hq).1, rfl⟩
 
+/-- a short option string `-x` that is no option string of the table and no prefix of one -/
+theorem classify_unknown_short {tbl : List OptSpec} {c : Char} (hc1 : c ≠ '-') (hc2 : c ≠ '=')
+    (hc3 : c.isDigit = false) (hn : ['-', c] ∉ optStrings tbl) (hp : ∀ x ∈ optStrings tbl, ¬ ['-', c] <+: x) :
+    classify tbl ['-', c] = .unknown := by
+  have h1 := findOpt_none_iff.mpr hn
+  unfold classify
+  simp only [h1, prefixClash_false hp, hc3]
+  simp [hc1, Ne.symm hc2]
+
+/-! ### when does `add_argument` succeed -/
+
+theorem mapE_ok_iff {α β ε} {f : α → Except ε β} {l : List α} :
+    (∃ l', mapE f l = .ok l') ↔ ∀ a ∈ l, ∃ b, f a = .ok b := by
+  induction l with
+  | nil => simp [mapE]
+  | cons a as ih =>
+    unfold mapE
+    cases ha : f a with
+    | error e =>
+      simp only [List.mem_cons, forall_eq_or_imp, ha]
+      constructor
+      · rintro ⟨_, h⟩; cases h
+      · rintro ⟨⟨_, h⟩, _⟩; cases h
+    | ok b =>
+      cases has : mapE f as with
+      | error e =>
+        simp only [List.mem_cons, forall_eq_or_imp, ha]
+        constructor
+        · rintro ⟨_, h⟩; cases h
+        · rintro ⟨_, h⟩
+          obtain ⟨_, h'⟩ := ih.mpr h
+          rw [has] at h'; cases h'
+      | ok bs =>
+        simp only [List.mem_cons, forall_eq_or_imp, ha]
+        refine ⟨fun _ => ⟨⟨b, rfl⟩, ih.mp ⟨bs, has⟩⟩, fun _ => ⟨_, rfl⟩⟩
+
+theorem addOpt_ok_iff (q : Parser) (s : OptSpec) :
+    (∃ q', q.addOpt s = .ok q') ↔ (s.isOpt = true → ∀ x ∈ s.strings, x ∉ optStrings q.opts) := by
+  unfold Parser.addOpt conflicts
+  by_cases hk : s.isOpt = true
+  · by_cases hc : s.strings.any (fun x => (optStrings q.opts).contains x) = true
+    · simp only [hk, hc, Bool.and_self, if_true]
+      constructor
+      · rintro ⟨_, h⟩; cases h
+      · intro h
+        obtain ⟨x, hx, hx'⟩ := List.any_eq_true.mp hc
+        exact absurd (by simpa using hx') (h trivial x hx)
+    · simp only [hk, hc, Bool.and_false, Bool.false_eq_true, if_false]
+      refine ⟨fun _ _ x hx hm => hc (List.any_eq_true.mpr ⟨x, hx, by simpa using hm⟩), fun _ => ⟨_, rfl⟩⟩
+  · have hk' : s.isOpt = false := by simpa using hk
+    rw [hk']
+    simp only [Bool.false_and, Bool.false_eq_true, if_false]
+    exact ⟨fun _ h => (by cases h), fun _ => ⟨_, rfl⟩⟩
+
+/-- `add_argument` succeeds iff the target exists and no parser that receives the option already has
+one of its option strings; the failures are `ValueError` (unknown command) and `ArgumentError`. -/
+theorem addOption_ok_iff (st : St) (t : Option Name) (s : OptSpec) :
+    (∃ st', addOption st t s = .ok st') ↔
+      (∀ p, t = some p → p ∈ names st.parsers) ∧
+      (s.isOpt = true → ∀ q ∈ st.parsers, recvN st.parsers t q.name = true →
+        ∀ x ∈ s.strings, x ∉ optStrings q.opts) := by
+  cases t with
+  | none =>
+    have : (∃ st', addOption st none s = .ok st') ↔ ∃ l', mapE (fun q => q.addOpt s) st.parsers = .ok l' := by
+      unfold addOption
+      cases mapE (fun q => q.addOpt s) st.parsers with
+      | error e => simp
+      | ok l => simp
+    rw [this, mapE_ok_iff]
+    simp only [reduceCtorEq, false_implies, implies_true, true_and, recvN]
+    constructor
+    · intro h hk q hq _
+      exact (addOpt_ok_iff q s).mp (h q hq) hk
+    · intro h q hq
+      exact (addOpt_ok_iff q s).mpr (fun hk => h hk q hq trivial)
+  | some p =>
+    cases hf : findParser st.parsers p with
+    | none =>
+      have h1 : ¬ ∃ st', addOption st (some p) s = .ok st' := by
+        unfold addOption; simp [hf]
+      have h2 : p ∉ names st.parsers := by
+        intro hm
+        obtain ⟨r, hr, hn⟩ := List.mem_map.mp hm
+        obtain ⟨r', hr'⟩ := findParser_of_mem hr
+        rw [hn, hf] at hr'; cases hr'
+      exact ⟨fun h => absurd h h1, fun ⟨h, _⟩ => absurd (h p rfl) h2⟩
+    | some r =>
+      have hp : p ∈ names st.parsers := by
+        obtain ⟨hr, hn⟩ := findParser_some hf
+        exact hn ▸ List.mem_map.mpr ⟨r, hr, rfl⟩
+      have : (∃ st', addOption st (some p) s = .ok st') ↔
+          ∃ l', mapE (fun q => if q.name = p ∨ q.name ∈ r.deps then q.addOpt s else .ok q) st.parsers = .ok l' := by
+        unfold addOption
+        simp only [hf]
+        cases mapE (fun q => if q.name = p ∨ q.name ∈ r.deps then q.addOpt s else .ok q) st.parsers with
+        | error e => simp
+        | ok l => simp
+      rw [this, mapE_ok_iff]
+      simp only [Option.some.injEq, forall_eq', hp, true_and, recvN, hf, decide_eq_true_eq]
+      constructor
+      · intro h hk q hq hrecv
+        have := h q hq
+        rw [if_pos hrecv] at this
+        exact (addOpt_ok_iff q s).mp this hk
+      · intro h q hq
+        by_cases hrecv : q.name = p ∨ q.name ∈ r.deps
+        · rw [if_pos hrecv]
+          exact (addOpt_ok_iff q s).mpr (fun hk => h hk q hq hrecv)
+        · rw [if_neg hrecv]; exact ⟨q, rfl⟩
+
+theorem addOption_err {st : St} {t : Option Name} {s : OptSpec} {e : Fail} (h : addOption st t s = .error e) :
+    e = .exc .valueError ∨ e = .argumentError := by
+  have hm : ∀ (f : Parser → Except Fail Parser) (l : List Parser),
+      (∀ q e, f q = .error e → e = .argumentError) → ∀ e, mapE f l = .error e → e = .argumentError := by
+    intro f l hf
+    induction l with
+    | nil => intro e h; cases h
+    | cons a as ih =>
+      intro e h
+      unfold mapE at h
+      cases ha : f a with
+      | error e' => simp only [ha] at h; cases h; exact hf a _ ha
+      | ok b =>
+        simp only [ha] at h
+        cases has : mapE f as with
+        | error e' => simp only [has] at h; cases h; exact ih _ has
+        | ok bs => simp [has] at h
+  have ha : ∀ q e, Parser.addOpt q s = .error e → e = .argumentError := by
+    intro q e h
+    unfold Parser.addOpt at h
+    split at h
+    · cases h; rfl
+    · cases h
+  unfold addOption at h
+  cases t with
+  | none =>
+    simp only at h
+    cases hmm : mapE (fun q => q.addOpt s) st.parsers with
+    | error e' => simp only [hmm] at h; cases h; exact Or.inr (hm _ _ ha _ hmm)
+    | ok l => simp [hmm] at h
+  | some p =>
+    simp only at h
+    cases hf : findParser st.parsers p with
+    | none => simp only [hf] at h; cases h; exact Or.inl rfl
+    | some r =>
+      simp only [hf] at h
+      cases hmm : mapE (fun q => if q.name = p ∨ q.name ∈ r.deps then q.addOpt s else .ok q) st.parsers with
+      | error e' =>
+        simp only [hmm] at h; cases h
+        refine Or.inr (hm _ _ ?_ _ hmm)
+        intro q e hq
+        split at hq
+        · exact ha q e hq
+        · cases hq
+      | ok l => simp [hmm] at h
+
+/-! ### the declaration syntax `!name:parent1,parent2` -/
+
+/-- `",".join(parents)` -/
+def joinComma : List Name → Name
+  | [] => []
+  | [p] => p
+  | p :: q :: r => p ++ ',' :: joinComma (q :: r)
+
+/-- the documented way to write a declaration -/
+def render (d : Decl) : Name :=
+  (if d.internal then ['!'] else []) ++ d.name ++
+    (match d.parents with
+     | [] => []
+     | ps => ':' :: joinComma ps)
+
+theorem takeWhile_append_sep {c : Char} {pre post : List Char} (h : c ∉ pre) :
+    (pre ++ c :: post).takeWhile (· ≠ c) = pre ∧ (pre ++ c :: post).dropWhile (· ≠ c) = c :: post := by
+  induction pre with
+  | nil => simp
+  | cons x xs ih =>
+    have hx : x ≠ c := fun e => h (e ▸ List.mem_cons_self)
+    have := ih (fun e => h (List.mem_cons_of_mem _ e))
+    simp only [List.cons_append, List.takeWhile_cons, List.dropWhile_cons, hx, ne_eq, not_false_eq_true,
+      decide_true, if_true]
+    exact ⟨by rw [this.1], this.2⟩
+
+theorem splitOn_nosep {sep : Char} {p : List Char} (h : sep ∉ p) : splitOn sep p = (p, []) := by
+  induction p with
+  | nil => rfl
+  | cons x xs ih =>
+    have hx : x ≠ sep := fun e => h (e ▸ List.mem_cons_self)
+    simp [splitOn, ih (fun e => h (List.mem_cons_of_mem _ e)), hx]
+
+theorem splitOn_append_sep {sep : Char} {p rest : List Char} (h : sep ∉ p) :
+    splitOn sep (p ++ sep :: rest) = (p, splitAll sep rest) := by
+  induction p with
+  | nil => simp [splitOn, splitAll]
+  | cons x xs ih =>
+    have hx : x ≠ sep := fun e => h (e ▸ List.mem_cons_self)
+    simp [splitOn, ih (fun e => h (List.mem_cons_of_mem _ e)), hx]
+
+theorem splitAll_joinComma (ps : List Name) (hne : ps ≠ []) (h : ∀ p ∈ ps, ',' ∉ p) :
+    splitAll ',' (joinComma ps) = ps := by
+  induction ps with
+  | nil => exact absurd rfl hne
+  | cons p r ih =>
+    cases r with
+    | nil => simp [joinComma, splitAll, splitOn_nosep (h p List.mem_cons_self)]
+    | cons q r' =>
+      have hp := h p List.mem_cons_self
+      have := ih (by simp) (fun x hx => h x (List.mem_cons_of_mem _ hx))
+      simp only [joinComma, splitAll, splitOn_append_sep hp]
+      show p :: splitAll ',' (joinComma (q :: r')) = _
+      rw [this]
+
+theorem dedup_of_nodup (l : List Name) (h : l.Nodup) : dedup l = l := by
+  induction l with
+  | nil => rfl
+  | cons x xs ih =>
+    obtain ⟨h1, h2⟩ := List.nodup_cons.mp h
+    simp [dedup, h1, ih h2]
+
+theorem mem_dedup (l : List Name) (x : Name) : x ∈ dedup l ↔ x ∈ l := by
+  induction l with
+  | nil => simp [dedup]
+  | cons y ys ih =>
+    unfold dedup
+    split
+    · rename_i hy
+      rw [ih]
+      constructor
+      · exact fun h => List.mem_cons_of_mem _ h
+      · intro h
+        rcases List.mem_cons.mp h with h | h
+        · exact h ▸ hy
+        · exact h
+    · simp [ih]
+
+theorem dedup_nodup (l : List Name) : (dedup l).Nodup := by
+  induction l with
+  | nil => simp [dedup]
+  | cons y ys ih =>
+    unfold dedup
+    split
+    · exact ih
+    · rename_i hy
+      exact List.nodup_cons.mpr ⟨fun h => hy ((mem_dedup ys y).mp h), ih⟩
+
+/-- every parsed declaration has a duplicate-free list of non-empty parents -/
+theorem parseDecl_parents (s : Name) : (parseDecl s).parents.Nodup ∧ ∀ p ∈ (parseDecl s).parents, p ≠ [] := by
+  have key : ∀ l : List Name, (dedup (l.filter (· ≠ []))).Nodup ∧ ∀ p ∈ dedup (l.filter (· ≠ [])), p ≠ [] := by
+    intro l
+    refine ⟨dedup_nodup _, fun p hp => ?_⟩
+    have := (mem_dedup _ p).mp hp
+    simpa using (List.mem_filter.mp this).2
+  unfold parseDecl
+  cases hr : List.dropWhile (· ≠ ':') s with
+  | nil =>
+    simp only []
+    split <;> simp
+  | cons c ps =>
+    simp only []
+    split <;> exact key _
+
+/-- **Front end.** A declaration written the documented way — optional `!`, a name without `:` that
+does not itself start with `!`, then `:` and the comma separated parents (non-empty, without commas,
+without surrounding blanks, all different) — is read back as exactly that declaration. -/
+theorem parseDecl_render (d : Decl) (hn1 : ':' ∉ d.name) (hn2 : d.name.head? ≠ some '!')
+    (hp1 : ∀ p ∈ d.parents, p ≠ [] ∧ ',' ∉ p ∧ strip p = p) (hp2 : d.parents.Nodup) :
+    parseDecl (render d) = d := by
+  obtain ⟨name, internal, parents⟩ := d
+  simp only at hn1 hn2 hp1 hp2
+  have hcolon : ':' ∉ (if internal then ['!'] else []) ++ name := by
+    cases internal <;> simp [hn1]
+  have hpar : dedup (((splitAll ',' (joinComma parents)).map strip).filter (· ≠ [])) = parents ∨ parents = [] := by
+    by_cases he : parents = []
+    · exact Or.inr he
+    · left
+      rw [splitAll_joinComma parents he (fun p hp => (hp1 p hp).2.1)]
+      have h1 : parents.map strip = parents := by
+        conv => rhs; rw [← List.map_id parents]
+        exact List.map_congr_left (fun p hp => (hp1 p hp).2.2)
+      rw [h1]
+      have h2 : parents.filter (· ≠ []) = parents := by
+        apply List.filter_eq_self.mpr
+        intro p hp
+        simpa using (hp1 p hp).1
+      rw [h2]
+      exact dedup_of_nodup _ hp2
+  have hhead : ∀ (cmd : Name) (ps : List Name), cmd = (if internal then ['!'] else []) ++ name →
+      (match cmd with
+        | '!' :: nm => ({ name := nm, internal := true, parents := ps } : Decl)
+        | _ => { name := cmd, internal := false, parents := ps }) =
+      { name := name, internal := internal, parents := ps } := by
+    intro cmd ps hc
+    subst hc
+    cases internal with
+    | true => simp
+    | false =>
+      cases name with
+      | nil => simp
+      | cons c r =>
+        have : c ≠ '!' := fun e => hn2 (by simp [e])
+        simp only [Bool.false_eq_true, if_false, List.nil_append]
+        split
+        · rename_i nm heq
+          cases heq
+          exact absurd rfl this
+        · rfl
+  unfold parseDecl render
+  cases parents with
+  | nil =>
+    simp only [List.append_nil]
+    obtain ⟨h1, h2⟩ := takeWhile_ne_self hcolon
+    rw [h1, h2]
+    exact hhead _ _ rfl
+  | cons p r =>
+    simp only []
+    obtain ⟨h1, h2⟩ := takeWhile_append_sep (post := joinComma (p :: r)) hcolon
+    rw [h1, h2]
+    simp only []
+    rcases hpar with hpar | hpar
+    · rw [hpar]; exact hhead _ _ rfl
+    · cases hpar
+
 end CliGraph
